@@ -10,6 +10,7 @@ import AnonModel.Driver.OpsStore
 import AnonModel.Driver.OpsTails
 import AnonModel.Driver.OpsWire
 import AnonModel.Driver.OpsWireReq
+import AnonModel.Driver.OpsMp
 import AnonModel.Driver.OpsIssue
 import AnonModel.Driver.OpsMeets
 import AnonModel.Model.Ident
@@ -76,6 +77,9 @@ def step (j : Json) : Json :=
     | some r => r
     | none =>
     match stepWireReq op j with
+    | some r => r
+    | none =>
+    match stepMp op j with
     | some r => r
     | none => badOp
 
